@@ -3,7 +3,7 @@
 # touches; prints only what is NOT silent. /repo is restored after each.
 TIER="${1:-quick}"
 n=0
-for f in /verif/seeded/harmless/*.diff /verif/seeded/harmless/r4/*.diff; do
+for f in /verif/seeded/harmless/*.diff /verif/seeded/harmless/r4/*.diff /verif/seeded/harmless/r5/*.diff; do
   n=$((n+1))
   /verif/tools/try_harmless.sh "$f" "$TIER" 2>&1 | grep -v "exit=0" | sed -E "s#patch=/verif/seeded/harmless/##"
 done
